@@ -1,3 +1,165 @@
-import Cstl.Sort.Model
+import Cstl.Sort.PropsSearch
+import Cstl.Sort.PropsHeap
+import Cstl.Sort.PropsQuick
+/-
+C11, first sentence, for `cstl_raw_array_sort` (= `__cstl_vector_sort`, which
+passes `(base, count, size, scratch = slot cap)` through): every selector —
+the four named algorithms and every out-of-range value — leaves a sorted
+permutation and never reaches outside the array.
+
+The per-algorithm theorems are in PropsQuick.lean / PropsHeap.lean, the
+search / find / reverse theorems in PropsSearch.lean.
+-/
 namespace Cstl.Sort
+
+/-- **default fallback**: every out-of-range selector behaves exactly like
+`CSTL_SORT_ALGORITHM_DEFAULT` (median-of-three quicksort) -/
+theorem sort_default (fuel : Nat) (s : St) (algo : Nat) (h : 3 < algo) :
+    sort fuel s algo = sort fuel s 2 := by
+  have e : effAlgo algo = 2 := by unfold effAlgo; rw [if_neg (by omega)]
+  have e2 : effAlgo 2 = 2 := by decide
+  unfold sort
+  simp only [e, e2]
+
+/-- **every selector returns a sorted permutation whenever it returns, and
+never touches anything outside `[0,count)` ∪ {scratch}**: the model checks
+every element access against the range and the only other cell it writes is
+the scratch cell, so "no access outside" is "the result is never `oob`"; the
+only way not to return is the recursion budget of the random-pivot corner. -/
+theorem sort_sorted_perm (fuel : Nat) (s : St) (algo : Nat) :
+    (∃ s', sort fuel s algo = .ok s' ∧
+      s'.arr.toList.Perm s.arr.toList ∧
+      s'.arr.toList.Pairwise (fun x y => x.key ≤ y.key)) ∨
+    sort fuel s algo = .error .fuel := by
+  unfold sort
+  by_cases h : effAlgo algo = 3
+  · simp only [h, if_true]
+    obtain ⟨s', h1, h2, h3, _⟩ := hsort_sorted_perm s
+    exact .inl ⟨s', h1, h2, h3⟩
+  · simp only [h, if_false]
+    exact qsort_sorted_perm _ _ _
+
+/-- no out-of-range access and no `int` overflow, for every selector, stream and fuel -/
+theorem sort_no_oob (fuel : Nat) (s : St) (algo : Nat) :
+    sort fuel s algo ≠ .error .oob ∧ sort fuel s algo ≠ .error .ovf := by
+  rcases sort_sorted_perm fuel s algo with ⟨s', h, _⟩ | h <;> rw [h] <;> exact ⟨by simp, by simp⟩
+
+/-- **the sort always finishes for the deterministic selectors** (first
+element, median of three, heapsort, every out-of-range value) with recursion
+budget `count` -/
+theorem sort_terminates (fuel : Nat) (s : St) (algo : Nat) (halgo : algo ≠ 1) (hf : s.arr.size ≤ fuel) :
+    ∃ s', sort fuel s algo = .ok s' ∧
+      s'.arr.toList.Perm s.arr.toList ∧
+      s'.arr.toList.Pairwise (fun x y => x.key ≤ y.key) := by
+  have he : effAlgo algo ≠ 1 := by unfold effAlgo; split <;> omega
+  unfold sort
+  by_cases h : effAlgo algo = 3
+  · simp only [h, if_true]
+    obtain ⟨s', h1, h2, h3, _⟩ := hsort_sorted_perm s
+    exact ⟨s', h1, h2, h3⟩
+  · simp only [h, if_false]
+    exact qsort_terminates _ _ _ he hf
+
+/-- **the configuration the correspondence check runs** (`rand()` = the
+scripted draws, then 0; budget `sortFuel`) always returns a sorted
+permutation, for every selector and every list of draws -/
+theorem sort_total (s : St) (algo : Nat) (hd : s.dflt = 0) :
+    ∃ s', sort (sortFuel s) s algo = .ok s' ∧
+      s'.arr.toList.Perm s.arr.toList ∧
+      s'.arr.toList.Pairwise (fun x y => x.key ≤ y.key) := by
+  by_cases h1 : effAlgo algo = 1
+  · unfold sort
+    simp only [h1, show (1 : Nat) ≠ 3 by decide, if_false]
+    exact qsort_random_terminates _ _ hd (by unfold sortFuel; omega)
+  · rcases sort_sorted_perm (sortFuel s) s algo with h | h
+    · exact h
+    · exfalso
+      unfold sort at h
+      by_cases h3 : effAlgo algo = 3
+      · simp only [h3, if_true] at h
+        obtain ⟨s', h', _⟩ := hsort_sorted_perm s
+        rw [h] at h'; cases h'
+      · simp only [h3, if_false] at h
+        obtain ⟨s', h', _⟩ := qsort_terminates (effAlgo algo) (sortFuel s) s h1 (by unfold sortFuel; omega)
+        rw [h] at h'; cases h'
+
+example : ((sort 9 { arr := #[⟨2, 0⟩, ⟨3, 1⟩, ⟨1, 2⟩, ⟨2, 3⟩, ⟨1, 4⟩], rnd := [4, 4, 1] } 1).toOption.map
+    (fun s => s.arr.toList.map (·.key))) = some [1, 1, 2, 2, 3] := by decide
+
+example : ((sort 5 { arr := #[⟨2, 0⟩, ⟨3, 1⟩, ⟨1, 2⟩, ⟨2, 3⟩, ⟨1, 4⟩] } 77).toOption.map
+    (fun s => s.arr.toList.map (·.key))) = some [1, 1, 2, 2, 3] := by decide
+
+example : True := by
+  have := sort_terminates 5 { arr := #[⟨2, 0⟩, ⟨3, 1⟩, ⟨1, 2⟩, ⟨2, 3⟩, ⟨1, 4⟩] } 0 (by decide) (by decide)
+  have := sort_total { arr := #[⟨2, 0⟩, ⟨3, 1⟩, ⟨1, 2⟩, ⟨2, 3⟩, ⟨1, 4⟩], rnd := [4, 4, 1] } 1 rfl
+  trivial
+
+/-! ### histories: any sequence of the modifying / reading calls -/
+
+/-- one call of the public API on the same array (what a line of the check's
+scripts does) -/
+inductive Op where
+  | sort (algo : Nat) (draws : List Nat)
+  | rev
+  | search (x : Elem)
+  | find (x : Elem)
+
+def runOp (s : St) : Op → R St
+  | .sort algo draws =>
+    let s0 := { s with rnd := draws, dflt := 0 }
+    sort (sortFuel s0) s0 algo
+  | .rev => reverse s
+  | .search x => (search s x).map (·.1)
+  | .find x => (find s x).map (·.1)
+
+def run : List Op → St → R St
+  | [], s => pure s
+  | op :: ops, s => runOp s op >>= run ops
+
+/-- **every history of sort / reverse / search / find calls** (any selectors,
+any draws, any probes, sorted or not) that returns leaves a permutation of
+the original `(key,id)` elements: nothing is ever lost, duplicated or altered.
+(That each `sort` step returns, sorted, is `sort_total`.) -/
+theorem run_perm : ∀ (ops : List Op) (s s' : St), run ops s = .ok s' →
+    s'.arr.toList.Perm s.arr.toList := by
+  intro ops
+  induction ops with
+  | nil => intro s s' h; cases h; exact List.Perm.refl _
+  | cons op ops ih =>
+    intro s s' h
+    unfold run at h
+    cases hop : runOp s op with
+    | error e => rw [hop] at h; cases h
+    | ok s1 =>
+      rw [hop] at h
+      refine (ih s1 s' h).trans ?_
+      cases op with
+      | sort algo draws =>
+        have hop' : sort (sortFuel { s with rnd := draws, dflt := 0 }) { s with rnd := draws, dflt := 0 } algo
+            = .ok s1 := hop
+        rcases sort_sorted_perm (sortFuel { s with rnd := draws, dflt := 0 })
+            { s with rnd := draws, dflt := 0 } algo with ⟨s2, h2, hp, _⟩ | h2
+        · rw [hop'] at h2; cases h2; exact hp
+        · rw [hop'] at h2; cases h2
+      | rev => exact reverse_perm hop
+      | search x =>
+        have hop' : (search s x).map (·.1) = .ok s1 := hop
+        cases hs : search s x with
+        | error e => rw [hs] at hop'; cases hop'
+        | ok r =>
+          rw [hs] at hop'
+          cases hop'
+          show r.1.arr.toList.Perm s.arr.toList
+          rw [search_arr hs]
+      | find x =>
+        have hop' : (find s x).map (·.1) = .ok s1 := hop
+        obtain ⟨s2, r, h2, ha, _⟩ := find_first s x
+        rw [h2] at hop'; cases hop'
+        show s2.arr.toList.Perm s.arr.toList
+        rw [ha]
+
+example : (run [.find ⟨2, 0⟩, .rev, .sort 1 [2, 2], .search ⟨3, 0⟩, .sort 99 []]
+    { arr := #[⟨2, 0⟩, ⟨3, 1⟩, ⟨1, 2⟩] }).toOption.map (fun s => s.arr.toList.map (·.key)) = some [1, 2, 3] := by
+  decide
+
 end Cstl.Sort
